@@ -123,6 +123,21 @@ Theorem parse_render_stmt : forall X F, UnicodeSane X -> forall tbl st L s g r,
         (add_pats (stmt_pats tbl st) (st_after s (stext tbl L st ++ render_gap g) r)).
 Proof. intros X F HS tbl st L s g r. apply parse_render_stmt_lemma. exact HS. Qed.
 
+(* the text field of a `node` statement (`SNode v t l`: the Display text of the variable, which the interpreters write into the
+   debug attribute "variable name"; the real AST has no such field, the dump fills it with format!("{}", node)): the parser
+   model returns display_variable v (Model/VarDisplay.v; <str as Debug> on non-ASCII characters is the external table
+   x_print), `sloc` keeps the field of the written AST, and WfStmt demands that it IS that text - so parse_render_stmt /
+   _block / _file state the round trip of this field as well (stream C07 compares it).  For every accepted text:
+   Props/C20disp.v parsed_node_text. *)
+Theorem wf_node_text : forall X tbl v t l,
+  WfStmt X tbl (SNode v t l) <-> WfVar X v /\ t = display_variable (dpenv_of (x_print X)) v.
+Proof. intros. reflexivity. Qed.
+Theorem sloc_node_text : forall X tbl L p k v t l, WfStmt X tbl (SNode v t l) ->
+  exists v', sloc tbl L p k (SNode v t l) = SNode v' (display_variable (dpenv_of (x_print X)) v') p.
+Proof.
+  intros X tbl L p k v t l [_ ->]. cbn [sloc]. eexists. rewrite display_variable_vloc. reflexivity.
+Qed.
+
 Theorem parse_render_block : forall X F, UnicodeSane X -> forall tbl l L s r,
   wf_stmts X tbl l -> WfLayout X L ->
   p_rest s = block_text tbl L l ++ r -> (len s < F)%nat ->
@@ -167,7 +182,7 @@ Proof. exact parse_render_file_lemma. Qed.
 (* ---- non-vacuity ---- *)
 Definition ex_ext : ext :=
   {| x_alpha := fun c => c =? 233; x_alnum := fun c => c =? 233; x_ws := fun c => c =? 160;
-     x_query := fun _ _ => Some (QOk 1 (Some 1)); x_merged := fun _ => Some true; x_regex := fun _ => Some true |}.
+     x_query := fun _ _ => Some (QOk 1 (Some 1)); x_merged := fun _ => Some true; x_regex := fun _ => Some true; x_print := [] |}.
 Definition st0 (t : str) : pst := init_state t.
 
 (* a gap with a tab, a comment containing a multi-byte character and a brace, a no-break space *)
@@ -234,7 +249,7 @@ Qed.
 Definition ex_stmt : stmt :=
   SIf [([CSome (ECapture [99; 97; 112] QZero 0 0 (0, 0)) (0, 0); CBool (EUnscoped [115; 111; 109; 101; 116; 104; 105; 110; 103] (0, 0)) (0, 0)],
         [SScan (EUnscoped [120] (0, 0)) [(0, [SPrint [EInt 1; EInt 2] (0, 0)], (0, 0))] (0, 0)], (0, 0));
-       ([CBool ETrue (0, 0)], [SNode (VarU [110] (0, 0)) [] (0, 0)], (0, 0));
+       ([CBool ETrue (0, 0)], [SNode (VarU [110] (0, 0)) [110] (0, 0)], (0, 0));
        ([], [SAttrNode (EUnscoped [110] (0, 0)) [Attr [97] ETrue; Attr [98] (EInt 1)] (0, 0)], (0, 0))] (0, 0).
 Example ex_stmt_wf : WfStmt ex_ext [[97; 43]] ex_stmt.
 Proof. cbn. repeat split; try discriminate; repeat constructor; cbn; try discriminate; auto. Qed.
@@ -258,7 +273,7 @@ Definition ex_items : list item :=
    IInherit [115; 99];
    IShorthand {| sh_name := [115; 104]; sh_var := [120]; sh_vloc := (0, 0);
                  sh_attrs := [Attr [97] (EUnscoped [120] (0, 0)); Attr [98] ETrue]; sh_loc := (0, 0) |};
-   IStanza [40; 105; 100; 101; 110; 116; 105; 102; 105; 101; 114; 41; 32; 64; 105; 100; 32; 59; 32; 99; 10] {| st_stmts := [ex_stmt; SNode (VarU [109] (0, 0)) [] (0, 0)]; st_full_stanza_idx := 1;
+   IStanza [40; 105; 100; 101; 110; 116; 105; 102; 105; 101; 114; 41; 32; 64; 105; 100; 32; 59; 32; 99; 10] {| st_stmts := [ex_stmt; SNode (VarU [109] (0, 0)) [109] (0, 0)]; st_full_stanza_idx := 1;
                     st_full_file_idx := 0; st_start := (0, 0) |}].
 Example ex_items_wf : Forall (WfItem ex_ext [[97; 43]]) ex_items.
 Proof.
